@@ -7,6 +7,7 @@ import ast
 
 from ..model import func_nodes, norm, AnalysisError, static_truth
 from ..cfg import calls_in, _walk_noscope
+from .liveness import manager_only as manager_only_  # noqa: E402
 from .util import (none_test, node_has_effect, effect_nodes, calls_method_of, recv_call, stmt_of, parent,
                    cfg_nodes)
 from .liveness import broken_pred, resolve_pred, flag_writers, spawn_pred, close_callq_pred, manager_only
@@ -344,6 +345,23 @@ def r_mgr_total(e, R):
                     f"`{norm(sub)}` raises KeyError for a key the table does not contain (an exit code / signal number without an entry, e.g. a real-time signal); it is "
                     f"reachable from the manager's wait/classification step ({' -> '.join(e.call_path(reach, q))}) without a handler of KeyError: the manager thread "
                     "dies while reporting a worker death, the pool is never flagged broken and every pending future stays unresolved", e.loc(f, sub))
+    # warnings.warn raises when the filter says "error" (-W error, simplefilter("error"), pytest filterwarnings=error): on the manager
+    # thread that is an exception like any other -- it must not leave the thread
+    for q in sorted(a.manager_funcs):
+        f = e.prog.funcs[q]
+        if not manager_only_(e, q):
+            continue
+        for c in [x for x in func_nodes(f) if isinstance(x, ast.Call)]:
+            if not any(v == ("ext", "warnings.warn") for v in e.pt.ev(f, c.func)):
+                continue
+            n += 1
+            ok = False
+            for cn in cfg_nodes(e, f, c):
+                hs = [m for m, l in cn.succ if l == "exc" and m.kind == "except"]
+                ok = any(h.ast.type is None or any(k in norm(h.ast.type) for k in ("Warning", "Exception", "BaseException")) for h in hs)
+            R.check(ok, "R-MGR-TOTAL", f"{f.short}: `warnings.warn(...)` on the manager thread cannot kill it", f.short, "warnings.warn on the manager thread",
+                    "warnings.warn raises when warnings are configured as errors; here it runs on the executor manager thread outside any handler: the thread dies "
+                    "at the moment it was about to re-spawn a worker, pending futures never resolve and the executor is not flagged broken", e.loc(f, c))
     # explicit raises on that path (outside any handler) are the same hazard
     for q in reach:
         f = e.prog.funcs[q]
